@@ -69,11 +69,26 @@ def mk(clsname, n, pg):
   return a
 
 
-def cycle(sh, a, n, has_en, ptr, reqs, en, tag):
-  """apply inputs, observe, judge, tick; returns new reference pointer"""
+def cycle(sh, a, n, has_en, ptr, reqs, en, tag, tick_only=False):
+  """apply inputs, observe, judge, tick; returns new reference pointer.  tick_only: the inputs change right before sim_tick()
+  with no separate evaluation in between (the way most test benches drive a design); judged after the edge"""
   a.reqs @= reqs
   if has_en:
     a.en @= en
+  if tick_only:
+    eg, nptr, adv = ref_step(n, ptr, reqs, en, has_en)
+    a.sim_tick()
+    sh.count("cycles_judged"); sh.count("tick_only_cycles_judged"); sh.count("evaluations")
+    w = {"cls": tag, "nreqs": n, "ptr": ptr, "reqs": bin(reqs), "en": en, "driving": "inputs set, then sim_tick() only"}
+    after = int(a.priority_reg.out)
+    if after != (1 << nptr):
+      sh.violation("pointer-after-tick-wrong", dict(w, got=bin(after), expected=bin(1 << nptr), advance_expected=adv))
+    g2 = int(a.grants); eg2 = ref_step(n, nptr, reqs, en, has_en)[0]
+    if g2 != eg2:
+      sh.violation("grant-not-first-at-or-after-pointer", dict(w, grants=bin(g2), expected=bin(eg2), when="after the edge, same inputs"))
+    sh.last = (eg, adv)
+    if reqs: sh.fp(tag, n, ptr, reqs, en, "t")
+    return nptr
   a.sim_eval_combinational()
   grants = int(a.grants)
   preg = int(a.priority_reg.out)
@@ -143,11 +158,13 @@ def run_rand(sh):
   mode, left = "uniform", 0
   persistent = 0
   hist = []
+  tick_only = False
   full = (1 << n) - 1
   for c in range(sh.params["cycles"]):
     if left == 0:
       mode = rng.choice(["uniform", "all", "persistent", "behind", "sparse", "none", "reset"])
       left = rng.randrange(1, 3 * n + 4)
+      tick_only = rng.random() < 0.4
       persistent = rng.randrange(n)
     left -= 1
     if mode == "reset":
@@ -164,7 +181,7 @@ def run_rand(sh):
     else: reqs = 0
     en = rng.getrandbits(1) if has_en and rng.random() < 0.7 else 1
     eg, _, adv = ref_step(n, ptr, reqs, en, has_en)
-    ptr = cycle(sh, a, n, has_en, ptr, reqs, en, tag)
+    ptr = cycle(sh, a, n, has_en, ptr, reqs, en, tag, tick_only=tick_only)
     sh.count("random_cycles")
     # bounded-wait fairness from the *observed* grants
     g, adv = sh.last    # observed grants / observed pointer movement
